@@ -154,3 +154,75 @@ def driver(name, evaluator=False, cname=None, ret="double", params=None, core_ca
     hdr = "%s %s%s" % (ret, cname, params or prm)
     e = Extracted(cname, hdr, body, r, EVAL_H, X.find_loops(body))
     return e
+
+# ---------------------------------------------------------------------------
+# SIMD multibasis cores and gradient drivers (bspline_multi.h)
+SIMD_H = "include/photospline/detail/simd.h"
+
+def simd_prelude():
+    """PHOTOSPLINE_MAXDIM / VECTOR_SIZE / NVECS defines copied verbatim from simd.h; R8: the one-line
+    simd_vector<Float>::init transcribed (its text is checked)."""
+    s = src(SIMD_H)
+    defs = re.findall(r"^#define\s+PHOTOSPLINE_(?:MAXDIM|VECTOR_SIZE|NVECS)\b.*$", s, re.M)
+    if len(defs) != 3: raise ExtractionError("simd.h: the three PHOTOSPLINE_* defines not found")
+    if not re.search(r"static void init\(type &a, Float b\)\s*\{\s*a = b - type\{\};\s*\}", X.strip_comments(s)):
+        raise ExtractionError("simd.h: simd_vector::init is no longer 'a = b - type{}' (R8 transcription out of date)")
+    if not re.search(r"typedef Float type __attribute__\(\(vector_size\(PHOTOSPLINE_VECTOR_SIZE\*sizeof\(Float\)\)\)\);", s):
+        raise ExtractionError("simd.h: vector typedef changed")
+    return ("\n".join(defs) + "\n"
+            "typedef Float VP_SIMD_T __attribute__((vector_size(PHOTOSPLINE_VECTOR_SIZE*sizeof(Float))));\n"
+            "#define VP_SIMD_INIT(a, b) ((a) = (b) - (VP_SIMD_T){0})\n"
+            "int vp_thrown;   /* ghost: an exception has been thrown (R7) */\n")
+
+VCORE_PARAMS = "(const int* centers, const VP_SIMD_T*** localbasis, VP_SIMD_T* result)"
+
+def simd_rules(r, body):
+    body = r.sub("R8_simd_type", r"typename\s+detail::simd_vector<Float>::type", "VP_SIMD_T", body)
+    body = r.sub("R8_simd_init", r"detail::simd_vector<Float>::init\(", "VP_SIMD_INIT(", body)
+    body = r.sub("R9_vector_count", r"const unsigned int VC\s*=\s*vectorCountHelper<D>::VC;",
+                 "const unsigned int VC = ((D+1) / PHOTOSPLINE_VECTOR_SIZE) + ((D+1) % PHOTOSPLINE_VECTOR_SIZE ? 1 : 0);", body)
+    return body
+
+def check_vector_count_helper():
+    s = X.strip_comments(src(MULTI_H))
+    if not re.search(r"static constexpr unsigned int VC =\s*\(\(D\+1\) / PHOTOSPLINE_VECTOR_SIZE\)\s*\+ \(\(D\+1\) % PHOTOSPLINE_VECTOR_SIZE \? 1 : 0\);", s):
+        raise ExtractionError("vectorCountHelper changed: R9 transcription out of date")
+
+def vector_core(name, D=None, O=None, orders=None, cname=None):
+    s = src(MULTI_H)
+    start, header, body, end = X.find_function(s, r"splinetable<Alloc>::%s\s*\(" % re.escape(name))
+    r = X.Rules(); r.counts["R1_member"] = 1
+    body = common_rules(r, body)
+    body = simd_rules(r, body)
+    if r.counts["R8_simd_type"] == 0 or r.counts["R8_simd_init"] == 0: raise ExtractionError("%s: R8 did not fire" % name)
+    if orders is not None:
+        body = r.sub("R9_sizeof_pack", r"constexpr\s+unsigned\s+int\s+D\s*=\s*sizeof\.\.\.\(Orders\);", "const unsigned int D = %d;" % len(orders), body, must_fire=True)
+        body = r.sub("R9_nchunks", r"constexpr\s+uint32_t\s+nchunks\s*=\s*detail::nchunks<Orders\.\.\.>\(\);", "const uint32_t nchunks = %du;" % nchunks_of(orders), body, must_fire=True)
+        body = r.sub("R9_chunk", r"constexpr\s+uint32_t\s+chunk\s*=\s*detail::chunk<Orders\.\.\.>\(\);", "const uint32_t chunk = %du;" % (orders[-1] + 1), body, must_fire=True)
+    pre = ""
+    if D is not None: pre += "#define D %du\n" % D
+    if O is not None: pre += "#define Order %du\n" % O
+    cname = cname or name
+    text = pre + "void %s%s\n%s\n" % (cname, VCORE_PARAMS, body) + ("#undef D\n" if D is not None else "") + ("#undef Order\n" if O is not None else "")
+    e = Extracted(cname, "void %s%s" % (cname, VCORE_PARAMS), body, r, MULTI_H, X.find_loops(body))
+    e.full_text = text
+    return e
+
+def gradient_driver(evaluator=False, cname=None):
+    s = src(MULTI_H)
+    qual = r"splinetable<Alloc>::evaluator_type<Float>::" if evaluator else r"splinetable<Alloc>::"
+    start, header, body, end = X.find_function(s, qual + r"ndsplineeval_gradient\s*\(")
+    r = X.Rules(); r.counts["R1_member"] = 1
+    body = common_rules(r, body)
+    if evaluator: body = r.sub("R11_table_member", r"\btable\.(?=[a-z_])", "", body, must_fire=True)
+    body = simd_rules(r, body)
+    body = r.sub("R6_max_element", r"\*std::max_element\(order,\s*order\+ndim\)", "vp_max_u32(order, ndim)", body, must_fire=True)
+    body = r.sub("R7_throw", r"throw\s+std::runtime_error\(.*?\);", "{ vp_thrown = 1; return; }", body, must_fire=True, flags=re.S)
+    body = r.sub("R1_address_deref", r"&\*\s*knots\[n\]", "knots[n]", body, must_fire=True)
+    if evaluator:
+        body = r.sub("R11_member_ptr_call", r"\(table\.\*\(v_eval_ptr\)\)\(centers,\s*localbasis_ptr,\s*acc\)", "vp_call_vcore(centers, localbasis_ptr, acc)", body, must_fire=True)
+    else:
+        body = r.sub("R2_explicit_template_arg", r"ndsplineeval_multibasis_core<Float>\(", "ndsplineeval_multibasis_core(", body, must_fire=True)
+    cname = cname or ("ev_ndsplineeval_gradient" if evaluator else "ndsplineeval_gradient")
+    hdr = "void %s(const double* x, const int* centers, double* evaluates)" % cname
+    return Extracted(cname, hdr, body, r, MULTI_H, X.find_loops(body))
